@@ -504,7 +504,7 @@ def api_snapshot(directory, kind='cache', shards=2, with_check=False):
             if with_check:
                 import warnings
                 with warnings.catch_warnings():
-                    warnings.simplefilter('ignore')
+                    warnings.simplefilter('always')
                     ws = c.check()
                 warns += ['%s: %s' % (w.category.__name__, str(w.message).replace(directory, '<dir>')) for w in ws]
         finally:
